@@ -186,6 +186,9 @@ fn check(acc: &mut Acc, case: u64, sc: &Scenario, inj: &Injected, out: &Outcome,
     let mut inflight_open_cancelled = calls.iter().any(|c| c.cancelled.map(|x| x.0 < exit_log).unwrap_or(false));
     let mut inflight_call_result: Option<CallResult> = None;
     let mut had_inflight = false;
+    // the request of a caller that has given up is completely on the wire and its reply outstanding: the loop is
+    // waiting for that reply (not in the middle of a noidle exchange)
+    let mut cancelled_request_on_the_wire = false;
     for (ui, u) in a.units.iter().enumerate() {
         if !matches!(u.kind, UnitKind::Single | UnitKind::List) || !u.complete {
             continue;
@@ -215,6 +218,9 @@ fn check(acc: &mut Acc, case: u64, sc: &Scenario, inj: &Injected, out: &Outcome,
         } else if u.end_log < fault_log {
             // written before the fault, reply not completely delivered: in flight
             had_inflight = true;
+            if cv.cancelled.is_some() {
+                cancelled_request_on_the_wire = true;
+            }
             if cv.cancelled.is_some() || (cv.end.is_none() && dropped) {
                 inflight_open_cancelled = true;
             } else if let Some((_, _, r)) = &cv.end {
@@ -304,6 +310,16 @@ fn check(acc: &mut Acc, case: u64, sc: &Scenario, inj: &Injected, out: &Outcome,
                 } else {
                     acc.inc(if closed.is_empty() { "failure_surfaced_to_a_caller" } else { "failure_surfaced_as_closing_event" });
                 }
+            } else if cancelled_request_on_the_wire && matches!(inj, Injected::World(Fault::ReadErrAfter(_) | Fault::GarbageAt(..) | Fault::GarbageMuteAt(..) | Fault::WriteErrFrom(_))) {
+                // The caller whose REPLY failed had given up, so its error went nowhere. But these failures are
+                // persistent (every later read / write fails the same way, the malformed line stays at the head of the
+                // buffer), so the connection cannot end without failing again with nobody to take the error but the
+                // event stream. Only an end of stream can look clean the second time (cut on a line boundary).
+                if !proto_err_call && closed.is_empty() {
+                    viol(acc, "the connection failed persistently (not a clean close) while the caller in flight had given up; afterwards neither another caller received an error nor was a closing event emitted".into());
+                    return;
+                }
+                acc.inc("failure_surfaced_after_a_cancelled_caller");
             }
         } else {
             acc.inc("clean_closes");
